@@ -1,0 +1,72 @@
+//! Verification hook (only compiled with `--cfg capy_verif`): records the
+//! sequence of `TopoSort` calls made by `InferenceCtx::finish` (one line per
+//! `finish` call, appended to the file named by `$CAPY_VERIF_TRACE` on drop).
+//!
+//! Tokens: `S ids ;` keys after the seeding `extend`, `C ids ;` result of
+//! `peek_all_cyclic` (before the client's sort), `L ids ;` the leaves in
+//! processing order, `R x ;` `remove(x)`, `D x d f d f .. ;` `insert_deps(x, ds)`
+//! with `f` = 1 iff the dep was already finished, `E len ;` final `len()`.
+//! Items are numbered in order of first appearance; `gN` global, `lN` lambda,
+//! a trailing `'` marks a location with comptime arguments.
+use hir::common::ConcreteLoc;
+use rustc_hash::{FxHashMap, FxHashSet};
+
+#[derive(Default)]
+pub(crate) struct VerifTrace {
+    ids: FxHashMap<ConcreteLoc, usize>,
+    out: String,
+}
+
+impl VerifTrace {
+    fn id(&mut self, loc: ConcreteLoc) -> String {
+        let n = self.ids.len();
+        let i = *self.ids.entry(loc).or_insert(n);
+        let k = match loc {
+            ConcreteLoc::Global(_) => 'g',
+            ConcreteLoc::Lambda(_) => 'l',
+        };
+        let g = loc.comptime_args().is_some();
+        format!("{}{}{}", k, i, if g { "'" } else { "" })
+    }
+
+    pub(crate) fn list(&mut self, tag: &str, locs: &[ConcreteLoc]) {
+        self.out.push_str(tag);
+        for l in locs {
+            let s = self.id(*l);
+            self.out.push(' ');
+            self.out.push_str(&s);
+        }
+        self.out.push_str(" ; ");
+    }
+
+    pub(crate) fn deps(
+        &mut self,
+        x: ConcreteLoc,
+        deps: &[ConcreteLoc],
+        finished: &FxHashSet<ConcreteLoc>,
+    ) {
+        let s = self.id(x);
+        self.out.push_str(&format!("D {}", s));
+        for d in deps {
+            let s = self.id(*d);
+            self.out
+                .push_str(&format!(" {} {}", s, finished.contains(d) as u8));
+        }
+        self.out.push_str(" ; ");
+    }
+
+    pub(crate) fn end(&mut self, len: usize) {
+        self.out.push_str(&format!("E {} ; ", len));
+    }
+}
+
+impl Drop for VerifTrace {
+    fn drop(&mut self) {
+        use std::io::Write;
+        if let Ok(p) = std::env::var("CAPY_VERIF_TRACE") {
+            if let Ok(mut f) = std::fs::OpenOptions::new().create(true).append(true).open(p) {
+                let _ = writeln!(f, "{}", self.out.trim_end());
+            }
+        }
+    }
+}
